@@ -18,5 +18,17 @@ let init () =
     | "VComment" -> reply Parse_vcomment.vc_info_list (Parse_vcomment.vcomment_load d)
     | "OggVorbisInfo" -> reply Parse_ogg.ogv_info_list (Parse_ogg.oggvorbis_info_load d)
     | "OggVorbis" -> reply Parse_ogg.ogv_info_list (Parse_ogg.oggvorbis_load d)
+    | "OggOpusInfo" -> reply Parse_ogg.ogg_id (Parse_ogg.oggopus_info_load d)
+    | "OggSpeexInfo" -> reply Parse_ogg.ogg_id (Parse_ogg.oggspeex_info_load d)
+    | "OggTheoraInfo" -> reply Parse_ogg.ogg_id (Parse_ogg.oggtheora_info_load d)
+    | "OggOpus" -> reply Parse_ogg.ogg_id (Parse_ogg.oggopus_load d)
+    | "OggSpeex" -> reply Parse_ogg.ogg_id (Parse_ogg.oggspeex_load d)
+    | "OggTheora" -> reply Parse_ogg.ogg_id (Parse_ogg.oggtheora_load d)
     | "APEv2Data" -> reply Parse_apev2.ape_data_list (Parse_apev2.apev2data_load d)
+    | "MP4Atoms" -> reply Parse_mp4.mp4_flat_list (Parse_mp4.mp4_atoms_raw d)
+    | "MP4" -> reply Parse_mp4.mp4_flat_list (Parse_mp4.mp4_atoms_load d)
+    | "TrueAudio" -> reply Parse_headers.hdr_id (Parse_headers.trueaudio_load d)
+    | "MonkeysAudio" -> reply Parse_headers.hdr_id (Parse_headers.monkeysaudio_load d)
+    | "OptimFROG" -> reply Parse_headers.hdr_id (Parse_headers.optimfrog_load d)
+    | "ID3Header" -> reply Parse_id3.id3h_id (Parse_id3.id3header_load d)
     | _ -> "error unknown-loader " ^ k)
